@@ -55,3 +55,21 @@ Theorem C14_copied_bytes_found : forall b hdr raw rest src name g,
                take (f_csize g) (s_data (t_inner t)) = raw /\ t_limit t = len raw.
 Proof. exact raw_copy_found. Qed.
 Print Assumptions C14_copied_bytes_found.
+
+(* ---------- on sinks that accept short writes.
+   [R s t] (Proofs/ChunkSim.v): t is s over a sink that holds the same bytes at the same position but splits every
+   write in its own arbitrary, failure-free way.  Whatever the exact theorem says about the well-behaved sink then holds
+   for t: the copy succeeds, the sink holds b ++ local header ++ raw verbatim, the same record is kept. *)
+From ZipV Require Import Model.WriterCalls Proofs.ChunkSim Proofs.RawCopyChunk.
+Theorem C14_raw_copy_any_chunking : forall enc crc s t s1 b src raw name hdr,
+  R s t ->
+  finish_file enc crc s = (s1, Ok tt) -> ws_inner s1 = WStorer (at_end b) -> ws_to_extra s1 = false ->
+  len name <= 65535 -> len raw = f_csize src ->
+  local_header_chunks (raw_file src name (len b) 0) = Ok hdr ->
+  exists t2,
+    raw_copy enc crc t src raw name = (t2, Ok tt) /\
+    sink_bytes t2 = Some (b ++ concat hdr ++ raw) /\
+    ws_files t2 = ws_files s1 ++ [raw_file src name (len b) (len b + len (concat hdr))] /\
+    ws_raw t2 = true.
+Proof. exact raw_copy_any_chunking. Qed.
+Print Assumptions C14_raw_copy_any_chunking.
